@@ -33,13 +33,14 @@ type pendingReq struct {
 }
 
 type refClient struct {
-	everHeld map[string]bool // resources that were in some resource set sent to this client
-	c        *wsClient
-	held     map[string]*refRes
-	direct   map[string]int
-	pending  map[uint64]*pendingReq
-	answered map[uint64]int
-	lastSeq  map[string]int
+	redelivered map[string]bool // re-delivered while still held, since the last event seen
+	everHeld    map[string]bool // resources that were in some resource set sent to this client
+	c           *wsClient
+	held        map[string]*refRes
+	direct      map[string]int
+	pending     map[uint64]*pendingReq
+	answered    map[uint64]int
+	lastSeq     map[string]int
 	// resource ids handed over by a get response while other requests of this client were still
 	// pending: the client cannot know which pending answers rely on them, so it keeps them until
 	// it has no request outstanding (see DESIGN.md section 10)
@@ -126,7 +127,18 @@ func (rc *refClient) addResources(rs *rpcResources) {
 		rc.everHeld[rid] = true
 	}
 	keep := rc.reach(false)
-	skip := func(rid string) bool { return keep[rid] && rc.held[rid] != nil && rc.held[rid].kind != 'e' }
+	skip := func(rid string) bool {
+		if keep[rid] && rc.held[rid] != nil && rc.held[rid].kind != 'e' {
+			// delivered again although the client still holds it (D7/D9: the gateway had marked it
+			// unsent): events in between were withheld from a client that held the resource
+			if rc.redelivered == nil {
+				rc.redelivered = map[string]bool{}
+			}
+			rc.redelivered[rid] = true
+			return true
+		}
+		return false
+	}
 	for rid, m := range rs.Models {
 		if skip(rid) {
 			continue
@@ -390,7 +402,8 @@ func (m *monitors) onFrame(c *wsClient, f *cframe) {
 					rc.direct[*ro.RID]++
 				} else {
 					g := m.grants[c.cid+" "+strings.ReplaceAll(*ro.RID, "{cid}", c.cid)]
-					if g != nil && g.known && g.canGet() {
+					// (the verdict that produced this very response is the latest one)
+					if g != nil && g.known && g.get {
 						rc.direct[*ro.RID]++
 					}
 				}
@@ -524,10 +537,15 @@ func (m *monitors) onFrame(c *wsClient, f *cframe) {
 				if n <= last {
 					w.addViolation("C03", "event-duplicate-or-reordered", fmt.Sprintf("%s on %s: event seq %d after %d", f.rid, c.name, n, last))
 				} else if n != last+1 {
-					w.addViolation("C03", "event-gap", fmt.Sprintf("%s on %s: event seq %d after %d (skipped)", f.rid, c.name, n, last))
+					key := "event-gap"
+					if rc.redelivered[f.rid] {
+						key = "event-gap:after-redelivery"
+					}
+					w.addViolation("C03", key, fmt.Sprintf("%s on %s: event seq %d after %d (skipped)", f.rid, c.name, n, last))
 				}
 			}
 			rc.lastSeq[f.rid] = n
+			delete(rc.redelivered, f.rid)
 		}
 	}
 }
